@@ -52,8 +52,13 @@
 #ifdef RR_SKIP_BYTES
 #define RR_LOOP_INV_BYTES(msg, i, h0) (1)
 #else
+#ifdef RR_T_NOHDR
+#define RR_LI_H(msg, i, h0) (1)
+#else
+#define RR_LI_H(msg, i, h0) ((g_k < 4 * (size_t) (i)) ==> HDR(msg)[(h0) + g_k] == g_b)
+#endif
 #define RR_LOOP_INV_BYTES(msg, i, h0)                                      \
-	(((g_k < 4 * (size_t) (i)) ==> HDR(msg)[(h0) + g_k] == g_b) &&        \
+	(RR_LI_H(msg, i, h0) &&        \
 	    ((g_k >= 4 * (size_t) (i) && g_k < g_len0) ==> (msg)->m_body.ch_ptr[g_k - 4 * (size_t) (i)] == g_b) && \
 	    RR_NO_END_BELOW(i))
 #endif
